@@ -38,6 +38,16 @@ TABLE = {
  "C17-b": ("C17", "actions.py: set of distinct raw mode tokens instead of per-track lower-cased tests", "all-audio sheet whose TRACK lines spell AUDIO in different letter case"),
  "C18-b": ("C18", "akai_string.py char_ascii_to_akai: str input rstrip()ped", "a text name ending in a blank (the bytes form is unaffected)"),
  "C19-b": ("C19", "filters/common.py: 'digital silence' fast path in the ChickenSys IIR presets checks the input history only", "an all-zero block directly after a zero sample while the feedback tail is still ringing"),
+ "C01-d": ("C01", "akai/volume.py: the scan of the 100-slot volume table stops at the first inactive slot", "active volumes that are not packed at the front of the table (a deleted volume before an active one)"),
+ "C02-d": ("C02", "roland sample_entry.py: cluster_top added to the first cluster number instead of skipping that many links", "cluster_top > 0 on a chain whose first clusters are not consecutive ascending numbers"),
+ "C05-d": ("C05", "structural.py sanitize_names_general: generated-name set created per name group (same change as C06-c, found independently)", "two duplicated names that differ only in the separator before a final L/R"),
+ "C07-d": ("C07", "util/sector.py SectorStream._read: middle-sector loop reads a hoisted, never advanced sector index", "one read() spanning two or more full middle sectors"),
+ "C11-c": ("C11", "util/stream.py StreamWrapper.read: tell()/re-seek of the parent skipped when the read starts where this wrapper's last block ended", "two offset windows directly on the shared handle (CDDA tracks) read in alternating blocks"),
+ "C13-d": ("C13", "cdda/image.py from_bin_cue: index loop whose counter advances only when both tracks have an INDEX", "an all-AUDIO cue sheet with a track that has no parsable INDEX line"),
+ "C14-d": ("C14", "akai/volume.py _realize_files: 'file is not None' guard dropped; FileConstruct yields None for known types without a parser", "a type byte damaged to exactly 0x64, 0x71 or 0x78"),
+ "C15-d": ("C15", "akai/file_entry.py is_table_end: raw read(2) lets SectorReadError escape", "a truncated image whose directory sector lies behind sample data, cut before the end of that directory"),
+ "C16-d": ("C16", "akai/sample.py: active loops kept as a one-pass filter() iterator (same change as C20-c, found independently)", "two operations touching one looped sample on the same opened image"),
+ "C18-c": ("C18", "akai/data_types.py build_akai_tune_cents: cents folded with (x - X1) % 100 + X1", "tuning byte 0x7F (+50.0 cents) re-encodes as 0x80"),
  "C03-c": ("C03", "cuesheet.py: sector position computed through float seconds, int(75 * total_seconds)", "index times whose frame value hits a float rounding case (about 5% of MM:SS:FF, e.g. 00:00:55)"),
  "C04-c": ("C04", "generalized/wav.py export_wav: file opened without truncation (os.open without O_TRUNC)", "re-export into a directory that already holds a longer file of the same name"),
  "C05-c": ("C05", "rewind moved from to_generalized into export_wav, which rewinds only data_streams[0]", "an AKAI L/R pair exported a second time from the same opened image: channel 1 empty"),
@@ -82,6 +92,7 @@ HISTORY = {
  "C11-b": "missed by the first version of C11 (no second request for a chain during a schedule); caught after the Roland target lists other performances sharing samples, preferring cluster_top > 0",
  "C16-c": "missed by the first version of C16 (plain names, one partition); caught after the images got a file and a directory of different branches with the same raw name ending in '-'",
  "C19-b": "would have been missed (signals without silence); caught after adding impulse / burst-silence / silence-burst signals",
+ "C14-d": "missed by the quick tier of C14 (type byte took 14 class values, none of them a known type without a parser); caught after the type byte of one entry is swept over all 256 values and the others over every known type code +-1, unstrided",
  "C03-c": "missed by the first version of C03 (index times only with frames 0, 1, 74); caught after a sweep of all frame values 0..74 on one-track sheets",
  "C04-c": "missed by the first version of C04 (every export went into a fresh directory); caught after a re-export scenario into a directory holding longer files of the same names",
  "C05-c": "not a C05 matter on a first export; caught by C16 (history [export, export] on an image with an L/R pair)",
